@@ -510,6 +510,10 @@ func init() {
 	I["strconv.FormatFloat"] = func(th *Thread, fn *ssa.Function, args []Value) Value {
 		m := th.m
 		f, fmtc, prec, bits := args[0].(*Term), args[1].(*Term), args[2].(*Term), args[3].(*Term)
+		if !f.IsConst() && fmtc.IsConst() && byte(fmtc.Val) == 'f' && prec.IsConst() && prec.Signed() >= 0 && bits.IsConst() && bits.Val == 64 {
+			// fmt renders %.Nf of a float64 through this very function: the same rendering token
+			return m.sprintf(th, Str{C: "%." + strconv.Itoa(int(prec.Signed())) + "f"}, Slice{Iface{T: types.Typ[types.Float64], V: f}})
+		}
 		if !f.IsConst() || !fmtc.IsConst() || !prec.IsConst() || !bits.IsConst() {
 			m.unsupported("strconv.FormatFloat of a symbolic value")
 		}
